@@ -540,3 +540,96 @@ func c08Registration(r *Result) {
 		r.Stats["registration-scenarios"]++
 	}
 }
+
+// c08BusyServer: while one batch is in the middle of a handler that takes its time, the rest of the server goes on living: a
+// second connection is accepted and served - and then the first batch is
+// completed, every item (the built-in Discover Versions behind the slow one included) with its own outcome. Nothing a
+// well-behaved handler does - taking a while is not a failure - may stop the items after it from being answered.
+func c08BusyServer(r *Result) {
+	for _, order := range []string{"[slow Get, Discover Versions]", "[Discover Versions, slow Get, Discover Versions]"} {
+		key := "batch " + order + " on connection 1; while Get is in its handler: connection 2 is accepted and sends Discover Versions"
+		crumb("C08 scenario: " + key)
+		r.eval(key, true)
+		s := &kmip.Server{}
+		entered := make(chan struct{}, 4)
+		release := make(chan struct{})
+		s.Handle(kmip.OPERATION_GET, func(ctx *kmip.RequestContext, item *kmip.RequestBatchItem) (interface{}, error) {
+			entered <- struct{}{}
+			<-release
+			return kmip.GetResponse{ObjectType: kmip.OBJECT_TYPE_SYMMETRIC_KEY, UniqueIdentifier: "slow"}, nil
+		})
+		sc1, cc1 := rec.Pipe()
+		sc2, cc2 := rec.Pipe()
+		l := rec.NewListener()
+		l.Push(rec.AcceptStep{Conn: rec.NewConn(sc1, 1)})
+		init := make(chan struct{})
+		ret := make(chan error, 1)
+		go func() { ret <- s.Serve(l, init) }()
+		<-init
+		_ = cc1.SetDeadline(time.Now().Add(8 * time.Second))
+		_ = cc2.SetDeadline(time.Now().Add(8 * time.Second))
+		ver := kmip.ProtocolVersion{Major: 1, Minor: 4}
+		dv := kmip.RequestBatchItem{Operation: kmip.OPERATION_DISCOVER_VERSIONS, RequestPayload: kmip.DiscoverVersionsRequest{}}
+		get := kmip.RequestBatchItem{Operation: kmip.OPERATION_GET, RequestPayload: kmip.GetRequest{UniqueIdentifier: "k"}}
+		items := []kmip.RequestBatchItem{get, dv}
+		if strings.HasPrefix(order, "[Discover") {
+			items = []kmip.RequestBatchItem{dv, get, dv}
+		}
+		req1 := kmip.Request{Header: kmip.RequestHeader{Version: ver, BatchCount: int32(len(items))}, BatchItems: items}
+		obs := ""
+		if err := kmip.NewEncoder(cc1).Encode(&req1); err != nil {
+			obs = "cannot send: " + err.Error()
+		}
+		select {
+		case <-entered:
+		case <-time.After(3 * time.Second):
+			obs += "slow handler never entered; "
+		}
+		// the rest of the server while the batch is in flight
+		l.Push(rec.AcceptStep{Conn: rec.NewConn(sc2, 2)})
+		req2 := kmip.Request{Header: kmip.RequestHeader{Version: ver, BatchCount: 1}, BatchItems: []kmip.RequestBatchItem{dv}}
+		var resp2 kmip.Response
+		c2 := make(chan error, 1)
+		go func() {
+			if err := kmip.NewEncoder(cc2).Encode(&req2); err != nil {
+				c2 <- err
+				return
+			}
+			c2 <- kmip.NewDecoder(cc2).Decode(&resp2)
+		}()
+		select {
+		case err := <-c2:
+			obs += fmt.Sprintf("connection2-served=%v ", err == nil && len(resp2.BatchItems) == 1 && resp2.BatchItems[0].ResultStatus == kmip.RESULT_STATUS_SUCCESS)
+		case <-time.After(2 * time.Second):
+			obs += "connection2-served=false(no answer within 2 s) "
+		}
+		close(release)
+		var resp1 kmip.Response
+		if err := kmip.NewDecoder(cc1).Decode(&resp1); err != nil {
+			obs += "batch1: no response: " + err.Error()
+		} else {
+			obs += "batch1:"
+			for _, it := range resp1.BatchItems {
+				obs += fmt.Sprintf("[op=%d status=%d]", uint32(it.Operation), uint32(it.ResultStatus))
+			}
+		}
+		want := "connection2-served=true batch1:"
+		for _, it := range items {
+			want += fmt.Sprintf("[op=%d status=0]", uint32(it.Operation))
+		}
+		if obs != want {
+			r.find(Finding{Kind: "violation", What: "a batch with a handler that takes its time was not completed item by item, or the server stopped serving others meanwhile", Input: key, Expect: want, Actual: obs})
+		}
+		cc1.Close()
+		cc2.Close()
+		ctx, cancel := context.WithTimeout(context.Background(), 3*time.Second)
+		sdErr := s.Shutdown(ctx)
+		cancel()
+		if sdErr != nil {
+			r.find(Finding{Kind: "violation", What: "after a batch with a slow handler the server could not be shut down", Input: key, Actual: sdErr.Error()})
+		} else {
+			<-ret
+		}
+		r.Stats["busy-server-scenarios"]++
+	}
+}
